@@ -91,9 +91,13 @@ def _WTERMSIG(s):
     return _REAL_W[3](s)
 
 
+_PID_BASE = [100000]
+
+
 class Proc:
     def __init__(self, pid, argv, env, cwd, fds, t):
         self.pid = pid
+        self.vpid = pid           # stable per-path number (5000, 5001, ...) used for variable names and reports
         self.argv = argv
         self.env = env
         self.cwd = cwd
@@ -112,7 +116,7 @@ class Proc:
         return self.env.get("COND_NAME")
 
     def __repr__(self):
-        return "<proc %d %s %s>" % (self.pid, self.name, self.state)
+        return "<proc %d %s %s>" % (self.vpid, self.name, self.state)
 
 
 class Sched:
@@ -170,7 +174,12 @@ class Kernel:
         self.adversarial = adversarial
         self.clock = clock
         self.passthrough = passthrough
-        self.next_pid = self.FIRST_PID
+        # process ids are unique over all kernels of this (harness) process: a Popen object left over from an
+        # earlier path that is finalised during a later one must not be able to poll a child of that later path
+        # (pid reuse is outside every claim)
+        self.base = _PID_BASE[0]
+        _PID_BASE[0] += 1000
+        self.next_pid = self.base
         self.procs = {}
         self.real_pids = set()
         self.real_live = set()
@@ -247,6 +256,7 @@ class Kernel:
             pid = self.next_pid
             self.next_pid += 1
             p = Proc(pid, argv, envd, cwd_s, {}, self.tick())
+            p.vpid = self.FIRST_PID + (pid - self.base)
             p.state = "zombie"
             p.status = rc << 8
             p.t_exit = p.t_spawn
@@ -264,10 +274,11 @@ class Kernel:
             if fd != -1:
                 fds[name] = os.dup(fd)
         p = Proc(pid, argv, envd, cwd_s, fds, 0)
+        p.vpid = self.FIRST_PID + (pid - self.base)
         p.stdio = {"out": c2pwrite, "err": errwrite}
         p.blocked = set(self.blocked)         # signal mask inherited across fork/exec
         self.procs[pid] = p
-        e = self.ev("spawn", pid, envd.get("COND_NAME"))
+        e = self.ev("spawn", p.vpid, envd.get("COND_NAME"))
         p.t_spawn = e[1]
         self.sched.on_spawn(self, p)
         self._point("fork_exec_ret")
@@ -281,7 +292,7 @@ class Kernel:
         p.fds = {}
         p.state = "zombie"
         self._arrived()
-        e = self.ev("exit", p.pid, p.name, p.status)
+        e = self.ev("exit", p.vpid, p.name, p.status)
         p.t_exit = e[1]
 
     def release_children(self):
@@ -350,7 +361,7 @@ class Kernel:
             for p in live:
                 if p.state == "zombie":
                     p.state = "reaped"
-                    e = self.ev("reap", p.pid, p.name, "handler" if self.in_handler else "main")
+                    e = self.ev("reap", p.vpid, p.name, "handler" if self.in_handler else "main")
                     p.t_reap = e[1]
                     p.reaped_by = e[4]
                     return p.pid, p.status
@@ -435,7 +446,7 @@ class Kernel:
             p.fds = {}
             p.state = "zombie"
             self._arrived()
-            e = self.ev("exit", p.pid, p.name, p.status)
+            e = self.ev("exit", p.vpid, p.name, p.status)
             p.t_exit = e[1]
 
     def kill(self, pid, sig):
@@ -528,6 +539,7 @@ class Kernel:
             pid = self.next_pid
             self.next_pid += 1
             self.procs[pid] = Proc(pid, ["unrelated"], {}, "/", {}, self.tick())
+            self.procs[pid].vpid = self.FIRST_PID + (pid - self.base)
         return self
 
     def __exit__(self, *a):
